@@ -158,9 +158,23 @@ def truth_term(t):
             return t.arg(0) != 0
         if nm == 'inj_bv':
             return t.arg(0) != z3.BitVecVal(0, BV)
-        if nm == 'inj_str':
+        if nm in ('inj_str', 'inj_bytes'):
             return z3.Length(t.arg(0)) > 0
     return TRUTH(t)
+
+
+def is_bytes_term(t, leaf):
+    """`isinstance(t, bytes)` for an Obj term: decided for string injections, pushed through if-then-else, `leaf(t)` otherwise"""
+    if z3.is_app(t):
+        d = t.decl()
+        if d.kind() == z3.Z3_OP_ITE:
+            c, a, b = t.children()
+            return z3.If(c, is_bytes_term(a, leaf), is_bytes_term(b, leaf))
+        if d.name() == 'inj_bytes':
+            return z3.BoolVal(True)
+        if d.name() == 'inj_str':
+            return z3.BoolVal(False)
+    return leaf(t)
 
 
 _inj = {}
@@ -176,6 +190,8 @@ def to_obj(v):
     if k == 'opt':
         return z3.If(v.a['isnone'], NONE_OBJ, to_obj(v.a['inner']))
     if k in ('int', 'bool', 'bv', 'str'):
+        if k == 'str' and v.a.get('is_bytes'):
+            k = 'bytes'          # bytes and str are distinct objects even when they spell the same code units
         f = _inj.get(k)
         if f is None:
             f = _inj[k] = z3.Function('inj_' + k, v.t.sort(), Obj)
